@@ -40,7 +40,11 @@ REQUIRED_THEOREMS = [
     "conversion_commutes_with_divergence_poly_polar_partial", "conversion_commutes_with_divergence_poly_spherical_partial",
     "cyl_op_conversion_commutes_with_divergence_partial", "conversion_commutes_with_gradient_poly_partial",
     "from_expression_getitem",
+    # Props/C19Gap.lean (gap round): operator order for polar / spherical grids, gradient of a vector field
+    "operators_use_component_order_polar", "operators_use_component_order_spherical",
+    "polar_conversion_commutes_with_vector_gradient_real", "polarVectorGradientCont_matches_kernel",
 ]
+EXTRA_PROP_FILES = ["C19Gap"]
 RULE = ("legs: coordsys (5 curvilinear coordinate systems + Cartesian 1-3d at random points, batches and "
         "single points, exact Pythagorean (c,s) pairs and random angles), vtc (GridBase._vector_to_cartesian on "
         "random points/components and unit fields of every named axis for every grid class), order (axes, "
